@@ -100,6 +100,8 @@ type World struct {
 	parkHandled bool
 	nParks      int
 	onParked    func(site string)
+	dbArm       func(kind string)
+	plainDB     bool // hand the client the database itself, not hookDB
 	// parkedReturn: runFor may end (deadline or predicate) while a client
 	// goroutine is parked.
 	parkedReturn bool
@@ -262,9 +264,13 @@ func (w *World) startClient(tweak func(cfg *neutrino.Config)) error {
 		lg.SetLevel(l)
 		neutrino.UseLogger(lg)
 	}
+	var cdb walletdb.DB = db
+	if !w.plainDB {
+		cdb = &hookDB{DB: db, w: w}
+	}
 	cfg := neutrino.Config{
 		DataDir:      w.dir,
-		Database:     db,
+		Database:     cdb,
 		ChainParams:  *w.params,
 		ConnectPeers: addrs,
 		Dialer:       w.net.Dial,
